@@ -41,8 +41,9 @@ Apply(o, ev, fr) ==
     [] ev.op = "Removed" -> O!ORemoved(o, ev.d, ev.k)
     [] ev.op = "Purged"  -> O!OPurged(o, ev.d, ev.k, ev.ok)
     [] ev.op = "Loaded"  -> O!OLoaded(o, ev.r)
-    [] ev.op = "Persisted" -> O!OPersisted(o, ev.k, ev.v, ev.ok)
-    [] ev.op = "SetTried" -> O!OSetTried(o, ev.k)
+    [] ev.op = "Persisted" -> O!OPersisted(o, ev.d, ev.k, ev.e, ev.v, ev.ok)
+    [] ev.op = "SetTried" -> O!OSetTried(o, ev.d, ev.k, ev.e)
+    [] ev.op = "Resident" -> O!OResident(o, ev.over)
     [] ev.op = "PurgeCall"   -> O!OPurgeCall(o, Range(ev.ds), ev.k)
     [] ev.op = "PurgeReturn" -> O!OPurgeReturn(o, Range(ev.ds), ev.k)
     [] ev.op = "Evicted" -> O!OEvicted(o, ev.d, ev.k)
@@ -82,5 +83,7 @@ I_BadRecordIsMiss   == O!P_BadRecordIsMiss(obs)
 I_NoOwnError        == O!P_NoOwnError(obs)
 I_PublishedIsPersisted == O!P_PublishedIsPersisted(obs)
 I_NoWildRemoval     == O!P_NoWildRemoval(obs)
+I_NoWriteAfterPurge == O!P_NoWriteAfterPurge(obs)
+I_Capacity          == O!P_Capacity(obs)
 I_NoStuck           == O!P_NoStuck(obs)
 =============================================================================
